@@ -721,7 +721,7 @@ type Function struct {
 	module   *Module
 	defaults Tuple
 	freevars Tuple
-	freezing atomic.Bool // Freeze is in progress (cycle guard)
+	frozenAt atomic.Uint64 // 1 + the freezeEpoch in which Freeze last visited this function; 0: never
 }
 
 // A Module represents an evaluated Starlark module.
@@ -765,18 +765,30 @@ func (fn *Function) Type() string          { return "function" }
 func (fn *Function) Truth() Bool           { return true }
 func (fn *Function) Module() *Module       { return fn.module }
 
-// Freeze marks the function while it descends: a function can reach
-// itself through its free variables (def g(): return g). The mark is
-// removed afterwards, because a function has no frozen state of its
-// own to remember: the enclosing function may assign a captured
-// variable after an early Freeze of the closure (by the host, say),
-// and the next Freeze (at the end of the module) must reach that value.
+// freezeEpoch advances whenever a variable that an already frozen
+// closure captures is assigned (see SETLOCALCELL): from then on values
+// reachable from frozen functions may be unfrozen again.
+var freezeEpoch atomic.Uint64
+
+// Freeze freezes the default values and the captured variables.
+//
+// The function records (before it descends, so that a function that
+// reaches itself through its free variables, def g(): return g, is
+// visited once) the epoch in which it was frozen, and is not visited
+// again in that epoch: a traversal is linear however the closures
+// refer to one another. It does not remember being frozen for ever:
+// the enclosing function may assign a captured variable after an
+// early Freeze of the closure (by the host, say); that assignment
+// starts a new epoch, and the next Freeze (at the end of the module)
+// reaches the new value.
 func (fn *Function) Freeze() {
-	if fn.freezing.CompareAndSwap(false, true) {
-		defer fn.freezing.Store(false)
-		fn.defaults.Freeze()
-		fn.freevars.Freeze()
+	mark := freezeEpoch.Load() + 1
+	if fn.frozenAt.Load() == mark {
+		return
 	}
+	fn.frozenAt.Store(mark)
+	fn.defaults.Freeze()
+	fn.freevars.Freeze()
 }
 
 // Globals returns a new StringDict containing all global
